@@ -51,6 +51,11 @@ def utf8_cases(c):
             (z3.UGE(c, 0x10000), [z3.Concat(z3.BitVecVal(30, 5), e(20, 18)), z3.Concat(z3.BitVecVal(2, 2), e(17, 12)), z3.Concat(z3.BitVecVal(2, 2), e(11, 6)), z3.Concat(z3.BitVecVal(2, 2), e(5, 0))])]
 
 
+def _u8(st, v):
+    v = obj(st, v)
+    return v.t
+
+
 # ---------------------------------------------------------------- summaries for the tokenizer bodies
 class ParserScenario:
     def __init__(self, ctx, n, fail_at=None, extra_summaries=(), extra_inline=(), max_visits=None):
@@ -251,7 +256,7 @@ class ParserScenario:
             (r'<std::io::Bytes<R> as Iterator>::next$', self.s_bytes_next),
             (r'<reader::Location as Clone>::clone$|<Location as Clone>::clone$', s_clone),
             (r'<Option<u8> as PartialEq>::(eq|ne)$', self.s_opt_u8_eq),
-            (r'Vec::<.*>::new$', s_seq_new), (r'Vec::<.*>::push$', s_seq_push),
+            (r'Vec::<.*>::new$', s_seq_new), (r'Vec::<.*>::push$', s_seq_push), (r'String::len$|Vec::<.*>::len$|impl str>::len$', s_seq_len),
             (r'String::from_utf8$', self.s_from_utf8), (r'<std::string::String as Deref>::deref$', s_identity),
             (r'parse::<u64>$|parse::<i64>$', self.s_parse_int), (r'ParseIntError::kind$', self.s_pie_kind), (r'<&IntErrorKind as PartialEq>::eq$|<IntErrorKind as PartialEq>::eq$', self.s_kind_eq),
             (r'parse::<f64>$', self.s_parse_f64), (r'f64::is_finite$|impl f64>::is_finite$', self.s_is_finite), (r'<f64 as Into<JsonValue>>::into$|<JsonValue as From<f64>>::from$', self.s_from_f64),
@@ -261,6 +266,10 @@ class ParserScenario:
             (r'impl char>::encode_utf8$', self.s_encode_utf8), (r'impl str>::as_bytes$', s_identity),
             (r'<std::ops::Range<.*> as Iterator>::next$', self.s_range_next), (r'<std::ops::Range<.*> as IntoIterator>::into_iter$', s_identity),
             (r'as IntoIterator>::into_iter$', self.s_into_iter), (r'<std::slice::Iter<.*> as Iterator>::next$', s_iter_next),
+            (r'impl u8>::is_ascii_whitespace$', lambda ex, st, f, a, t: [(st, BoolV(z3.Or(*[_u8(st, a[0]) == x for x in (0x20, 9, 10, 12, 13)])))]),
+            (r'impl u8>::is_ascii_digit$', lambda ex, st, f, a, t: [(st, BoolV(isdig(_u8(st, a[0]))))]),
+            (r'impl u8>::is_ascii_hexdigit$', lambda ex, st, f, a, t: [(st, BoolV(z3.Or(isdig(_u8(st, a[0])), z3.And(z3.UGE(_u8(st, a[0]) | 0x20, ord('a')), z3.ULE(_u8(st, a[0]) | 0x20, ord('f'))))))]),
+            (r'impl u8>::is_ascii$', lambda ex, st, f, a, t: [(st, BoolV(z3.ULT(_u8(st, a[0]), 0x80)))]),
             (r'Option::<u8>::unwrap$', self.s_unwrap_u8), (r'Option::<u8>::is_none$', self.s_is_none),
             (r'IndexMap::<.*>::new$', self.s_map_new), (r'IndexMap::<.*>::insert$', self.s_map_insert),
             (r'ToString>::to_string$|type_name$|RangeInclusive|collect::<|Extend<|box_assume_init|into_vec|exchange_malloc|box_new|new_uninit|assume_init|slice::<impl \[.*\]>::into_vec', self.s_opaque),
@@ -889,8 +898,6 @@ def den_to_py(den):
 def replay_tokenizer(ctx, cands):
     from .cli import run_driver, show
     for c in cands:
-        if c.unmodelled:
-            c.status = 'inconclusive'; continue
         data = bytes.fromhex(c.model.get('input_hex', ''))
         env = {}
         if c.model.get('fail_at') is not None:
@@ -914,7 +921,21 @@ def replay_tokenizer(ctx, cands):
             if complete and n_garbage and not show(r['stderr']).startswith('error:'): bad = True
             if complete and not n_garbage and r['stderr']: bad = True
         c.replay = {'stdin_bytes': repr(data), 'env': env, 'expected_values': expv, 'expected_complete': complete, 'actual_rows': got, 'result': r['result'], 'stderr': show(r['stderr'])[:200]}
-        c.status = 'reproduced' if bad else ('unit' if c.family in ('tok.consumed', 'tok.location', 'tok.progress') else 'not-reproduced')
+        if not bad and not env and c.family in ('tok.garbage', 'tok.consumed', 'tok.end', 'tok.value'):
+            # a wrong look-ahead / byte count shows in what follows: let clean values follow the model's bytes
+            for suffix in (b' 7 8', b'7 8', b' "x" [1]', b'\n7'):
+                ext = data + suffix
+                exp2, comp2 = concrete_reference(ext)
+                if not comp2: continue
+                r2 = run_driver(ctx, ['--style', 'consise', '--on-error', 'stderr'], ext)
+                got2 = []
+                for ln in show(r2['stdout']).splitlines():
+                    try: got2.append(json.loads(ln))
+                    except Exception: got2.append('unparsable:' + ln)
+                expv2 = [v for k, v in exp2 if k == 'value']
+                if got2 != expv2 or str(r2['result']).startswith(('err', 'panic')):
+                    bad = True; c.replay = {'stdin_bytes': repr(ext), 'expected_values': expv2, 'actual_rows': got2, 'result': r2['result']}; break
+        c.status = 'reproduced' if bad else ('unit' if c.family in ('tok.consumed', 'tok.location', 'tok.progress', 'tok.garbage', 'tok.end') else 'not-reproduced')
 
 
 # ---------------------------------------------------------------- translator self-check (DESIGN 2.4)
